@@ -16,19 +16,19 @@ import (
 // Only necessary conditions are decidable statically; the relation "the schema accepts every
 // encoding" is not.
 //
-//   R-terminates    every recursion cycle among the generator functions that take a reflect.Type has a
-//                   guarded edge (seen-table lookup keyed by reflect.Type, or a decreasing depth with a
-//                   <=0 exit); every pointer-unwrapping loop is bounded
-//   R-kind-cases    each generator consults what encoding/json consults: embedded (Anonymous) fields,
-//                   []byte, Marshaler/TextMarshaler, interface kind, the ",string" option
-//   R-name-agree    struct-field walkers skip unexported fields and "-" and take the name from the json tag
-//   R-ref-escape / R-ref-unique  names spliced into "#/$defs/" are pointer-escaped and injective
-//   R-path-mirror   (nested style) "anyOf/0" is pushed on the path under exactly the condition that wraps
-//                   the schema in anyOf; the recorded first-occurrence path is a private copy
-//   R-bind          typed handlers bind the arguments by Marshal -> Unmarshal into a value created for
-//                   this call; the client keeps the schema it received
-//   R-fresh-schema      no schema is served from a package-level cache
-//   (R-bind also requires the arguments map to be marshalled untouched)
+//	R-terminates    every recursion cycle among the generator functions that take a reflect.Type has a
+//	                guarded edge (seen-table lookup keyed by reflect.Type, or a decreasing depth with a
+//	                <=0 exit); every pointer-unwrapping loop is bounded
+//	R-kind-cases    each generator consults what encoding/json consults: embedded (Anonymous) fields,
+//	                []byte, Marshaler/TextMarshaler, interface kind, the ",string" option
+//	R-name-agree    struct-field walkers skip unexported fields and "-" and take the name from the json tag
+//	R-ref-escape / R-ref-unique  names spliced into "#/$defs/" are pointer-escaped and injective
+//	R-path-mirror   (nested style) "anyOf/0" is pushed on the path under exactly the condition that wraps
+//	                the schema in anyOf; the recorded first-occurrence path is a private copy
+//	R-bind          typed handlers bind the arguments by Marshal -> Unmarshal into a value created for
+//	                this call; the client keeps the schema it received
+//	R-fresh-schema      no schema is served from a package-level cache
+//	(R-bind also requires the arguments map to be marshalled untouched)
 func init() { Registry["C18"] = checkC18 }
 
 const schemaPkg = ir.RootPath + "/internal/schema"
